@@ -208,7 +208,7 @@ func init() {
 		VE := L("((*am/silence.Silences).Version(recv.silences) == "+ce+".version)", true)
 		cnt := "(*am/silence.cacheEntry).count(" + ce + ")"
 		cnt0 := LitM{"nothing cached", func(l Lit) bool {
-			return l.Pos && (l.Atom == "("+cnt+" == 0)" || l.Atom == "(len("+ce+".silenceIDs) == 0)") || !l.Pos && (l.Atom == "(0 < "+cnt+")")
+			return l.Pos && (l.Atom == "("+cnt+" == 0)" || l.Atom == "(len("+ce+".silenceIDs) == 0)") || l.Pos && (l.Atom == "("+cnt+" < 1)")
 		}}
 		o.RequireFn(e.CountLitEdges(fn, VE)+e.CountLitEdges(fn, VE.Neg()) > 0, "no-version-test", "Mutes no longer compares the cached version with the store version", fn)
 		o.RequireFn(e.CountLitEdges(fn, cnt0)+e.CountLitEdges(fn, cnt0.Neg()) > 0, "no-count-test", "Mutes no longer tests whether silence ids are cached for the alert", fn)
